@@ -27,11 +27,17 @@ import os
 import re
 import shutil
 import signal
+import subprocess
+import sys
 import tempfile
 
 ENTRY = "entry-instance"
 METHODS = ["ref", "output"]
-STEP_POOL = ["a", "b", "c", "gen", "sim", "foo", "foo-I", "foo-II", "x.y", "p_q", "foo-III"]
+STEP_POOL = ["a", "b", "c", "gen", "sim", "foo", "foo-I", "foo-II", "x.y", "p_q", "foo-III",
+             # explicit `stage<N>.` prefixes: other spellings of names above (stage 0) and the same names in another stage
+             "stage0.foo", "stage00.foo-I", "stage0.a", "stage1.a", "stage1.foo", "stage2.gen"]
+REPLICATE_VALUES = [1, 2, 3, 2, 0]
+REPLICA = "replica"
 WORDS = ["alpha", "beta", "7", "x=1", "run", "-v", "n_2", "k.9", "zz"]
 NUMBERS = [0, 5, 42, 2.5, -1.5, True, False]
 DICTS = [{"OMP_NUM_THREADS": "4"}, {"MODE": "fast", "LEVEL": "2"}, {"A": "1"}, {"MODE": "slow"}]
@@ -118,7 +124,15 @@ def render_doc(ns):
             cmd = {"executable": "echo", "arguments": val_text(t["args"])}
             if t.get("env"):
                 cmd["environment"] = "%(" + t["env"] + ")s"
-            comps.append((t["idx"], {"signature": sig, "command": cmd}))
+            comp = {"signature": sig, "command": cmd}
+            attrs = {}
+            if t.get("replicate") is not None:
+                attrs["replicate"] = t["replicate"]
+            if t.get("aggregate"):
+                attrs["aggregate"] = True
+            if attrs:
+                comp["workflowAttributes"] = attrs
+            comps.append((t["idx"], comp))
     return {"entrypoint": {"entry-instance": ns["entry"],
                            "execute": [{"target": "<entry-instance>", "args": {n: val_text(v) for n, v in ns["entryArgs"]}}]},
             "workflows": [d for _i, d in sorted(wfs, key=lambda x: x[0])],
@@ -153,6 +167,8 @@ def model_request(ns):
         else:
             t["args"] = _mval(t["args"])
             t["env"] = t.get("env")
+            t["replicate"] = None if t.get("replicate") is None else str(t["replicate"])
+            t["aggregate"] = bool(t.get("aggregate"))
         ts.append(t)
     return {"op": "flatten", "templates": ts, "entry": ns["entry"],
             "entryArgs": [[n, _mval(v)] for n, v in ns["entryArgs"]],
@@ -192,7 +208,7 @@ def _observe(f):
         env = cmd.get("environment")
         if env is not None and env != "none":
             env = canon(envs[env]) if env in envs else "unknown-environment:" + str(env)
-        comps.append({"stage": c.get("stage", 0), "name": c["name"], "args": args,
+        comps.append({"stage": int(c.get("stage", 0)), "name": c["name"], "args": args,
                       "refs": sorted(c.get("references", [])), "env": env})
     try:
         val = [type(x).__name__ + ": " + str(x)[:200] for x in f.validate()]
@@ -294,12 +310,15 @@ def impl_conf(doc, var_docs, timeout=5):
 # oracle: direct recursive evaluation (independent of the model)
 # ----------------------------------------------------------------------------------------
 
-def _eval(v, scope_path, env, site=None, errors=None):
+def _eval(v, scope_path, env, site=None, errors=None, runtime=None):
     """value written inside the workflow instance `scope_path` -> list of ('l', text) | ('r', abs path tuple, method)
     | ('v', token of a non-string value).  `%(p)s` as the whole value hands the value on as it is; inside a
     longer string a number is embedded as its text and a dictionary is a mistake of the field at `site`."""
     if len(v) == 1 and "p" in v[0]:
         if v[0]["p"] not in env:
+            if runtime is not None and v[0]["p"] == REPLICA:
+                runtime.append(REPLICA)
+                return [("l", "%(replica)s")]
             raise KeyError(v[0]["p"])
         return list(env[v[0]["p"]])
     out = []
@@ -310,6 +329,12 @@ def _eval(v, scope_path, env, site=None, errors=None):
             out.append(("v", t))
         elif "p" in t:
             if t["p"] not in env:
+                if runtime is not None and t["p"] == REPLICA:
+                    # inside command.arguments `%(replica)s` is the replica index the runtime supplies to a
+                    # replicated component (whether the component is one is decided by the caller)
+                    runtime.append(REPLICA)
+                    out.append(("l", "%(replica)s"))
+                    continue
                 raise KeyError(t["p"])
             for x in env[t["p"]]:
                 if x[0] == "v":
@@ -371,8 +396,12 @@ def expected(ns, errors=None):
                 if not ok:
                     errors.append(here)
                     cenv = "invalid"
-            insts.append({"path": tuple(path), "step": path[-1], "site": site, "env": cenv,
-                          "toks": _eval(t["args"], path[:-1], env, ["components", t["idx"], None], errors)})
+            runtime = []
+            toks = _eval(t["args"], path[:-1], env, ["components", t["idx"], None], errors, runtime)
+            insts.append({"path": tuple(path), "step": path[-1], "site": site, "env": cenv, "toks": toks,
+                          "tidx": t["idx"], "penv": env, "uses_replica": bool(runtime),
+                          "declares_replica": any(p["name"] == REPLICA for p in t["params"]),
+                          "replicate": t.get("replicate") not in (None, 0), "aggregate": bool(t.get("aggregate"))})
             return
         steps = dict((s, tn) for s, tn in t["steps"])
         for j, e in enumerate(t["execute"]):
@@ -394,6 +423,30 @@ def expected(ns, errors=None):
                 cands = [p for p in paths if x[1][:len(p)] == p]
                 prods.append(cands[0] if len(cands) == 1 else None)
         i["producers"] = prods
+    # replication: a component is replicated when it asks for it, or when it does not aggregate and consumes (through
+    # the output references in its parameter values) a replicated component
+    by_path = {i["path"]: i for i in insts}
+    for i in insts:
+        ups = []
+        for val in i["penv"].values():
+            for x in val:
+                if x[0] == "r":
+                    cands = [p for p in paths if x[1][:len(p)] == p]
+                    if len(cands) == 1:
+                        ups.append(cands[0])
+        i["upstream"] = ups
+        i["replica"] = i["replicate"]
+    changed = True
+    while changed:
+        changed = False
+        for i in insts:
+            if not i["replica"] and not i["aggregate"] and any(by_path[p]["replica"] for p in i["upstream"]):
+                i["replica"] = changed = True
+    for i in insts:
+        if i["uses_replica"] and not i["replica"]:
+            errors.append(["components", i["tidx"], None])  # an unknown parameter of the component
+        if i["replica"] and i["declares_replica"]:
+            errors.append(["components", i["tidx"], None])  # the name is reserved in a replicated component
     return insts
 
 
@@ -409,9 +462,15 @@ def _regex_for(inst):
             prod = inst["producers"][n]
             rest = x[1][len(prod):]
             tail = ("/" + "/".join(rest) if rest else "") + ":" + (x[2] or "")
-            parts.append(r"stage0\.(?P<r%d>[A-Za-z0-9._-]+?)" % n + re.escape(tail))
+            parts.append(r"stage(?P<s%d>[0-9]+)\.(?P<r%d>[A-Za-z0-9._-]+?)" % (n, n) + re.escape(tail))
             n += 1
     return re.compile("".join(parts))
+
+
+def split_stage(step):
+    """a step called stage<N>.<name> asks for the component <name> in stage N; any other step for stage 0"""
+    m = re.fullmatch(r"stage([0-9]+)\.(.+)", step)
+    return (int(m.group(1)), m.group(2)) if m else (0, step)
 
 
 def _want_env(e):
@@ -439,7 +498,7 @@ def oracle_valid(ns, out):
     if len(comps) != len(exp):
         return ("wrong-number-of-components", {"expected": len(exp), "got": len(comps)})
     for c in comps:
-        if "%(" in c["args"]:
+        if "%(" in c["args"].replace("%(replica)s", ""):
             return ("parameter-reference-left", c)
         if "<" in c["args"] or ">" in c["args"]:
             return ("output-reference-left", c)
@@ -450,8 +509,9 @@ def oracle_valid(ns, out):
     for e in exp:
         rg = _regex_for(e)
         cs = []
+        stage, base = split_stage(e["step"])
         for k, c in enumerate(comps):
-            if not (c["name"] == e["step"] or c["name"].startswith(e["step"] + "-")):
+            if not (c["stage"] == stage and (c["name"] == base or c["name"].startswith(base + "-"))):
                 continue
             m = rg.fullmatch(c["args"])
             if m and c.get("env") == _want_env(e):
@@ -471,7 +531,8 @@ def oracle_valid(ns, out):
         for i, (k, groups) in assign.items():
             for n, prod in enumerate(exp[i]["producers"]):
                 j = path_index[prod]
-                if j in assign and comps[assign[j][0]]["name"] != groups["r%d" % n]:
+                if j in assign and (comps[assign[j][0]]["name"] != groups["r%d" % n]
+                                    or comps[assign[j][0]]["stage"] != int(groups["s%d" % n])):
                     return False
         return True
 
@@ -510,13 +571,15 @@ def oracle_valid(ns, out):
             if x[0] == "r":
                 prod = exp[i]["producers"][n]
                 rest = x[1][len(prod):]
-                want.add("stage0.%s%s:%s" % (groups["r%d" % n], "/" + "/".join(rest) if rest else "", x[2]))
+                want.add("stage%d.%s%s:%s" % (int(groups["s%d" % n]), groups["r%d" % n],
+                                              "/" + "/".join(rest) if rest else "", x[2]))
                 n += 1
         if set(comps[k]["refs"]) != want:
             return ("references-differ-from-output-references", {"component": comps[k], "expected": sorted(want)})
     if out["validate"]:
         return ("flowir-validator-rejects-result", out["validate"])
     return None
+
 
 
 def oracle_invalid(ns, fault, out):
@@ -526,8 +589,9 @@ def oracle_invalid(ns, fault, out):
         return ("invalid-namespace-accepted", {"fault": fault, "components": out["components"]})
     locs = [trunc_loc(l) for l in out["invalid"]]
     accept = [fault["loc"]] if fault.get("loc") else []
-    if fault["kind"] in VALUE_FAULTS:
-        # a non-string value in the wrong place is a mistake of the field(s) that misuse it
+    if fault["kind"] in VALUE_FAULTS + REPLICA_FAULTS:
+        # a non-string value in the wrong place is a mistake of the field(s) that misuse it; `%(replica)s` outside a
+        # replicated component / a parameter called replica inside one is a mistake of the component
         errs = []
         try:
             expected(ns, errs)
@@ -548,6 +612,10 @@ def oracle_invalid(ns, fault, out):
 VALUE_FAULTS = ("dictionary-embedded-in-execute-argument", "dictionary-embedded-in-component-arguments",
                 "dictionary-given-for-a-text-parameter", "text-or-number-given-as-environment",
                 "unknown-parameter-as-environment")
+REPLICA_FAULTS = ("replica-reference-in-a-component-that-is-not-replicated",
+                  "replicated-component-declares-a-parameter-called-replica",
+                  "replication-switched-off-upstream-of-a-replica-reference",
+                  "aggregation-inserted-upstream-of-a-replica-reference")
 CONF_ONLY_FAULTS = ("list-valued-argument", "unknown-user-variable", "parameter-reference-in-user-variable")
 
 # ----------------------------------------------------------------------------------------
@@ -610,7 +678,58 @@ def gen_component(rng, name, idx, tagged):
             if kind == "lit" and rng.random() < 0.2:
                 args += [{"p": pn}, lit(rng)]  # used twice
     rng.shuffle(params)
-    return {"name": name, "wf": False, "idx": idx, "params": params, "args": args, "env": env}
+    # workflowAttributes: the component asks to be replicated / ends the replication of what it consumes
+    replicate, aggregate = None, False
+    r = rng.random()
+    if r < 0.3:
+        replicate = rng.choice(REPLICATE_VALUES)
+    elif r < 0.45 and any(p["kind"] in ("ref", "pref") for p in params):
+        aggregate = True
+    return {"name": name, "wf": False, "idx": idx, "params": params, "args": args, "env": env,
+            "replicate": replicate, "aggregate": aggregate}
+
+
+def _insertion_points(args, lo):
+    """positions of command.arguments where text can be inserted without separating a partial reference from the
+    suffix that completes it"""
+    return [k for k in range(lo, len(args) + 1) if k == len(args) or "s" not in args[k]]
+
+
+def stages_contiguous(ns):
+    """the stages asked for by the component steps are 0..n-1 (FlowIR numbers its stages without gaps)"""
+    try:
+        stages = {split_stage(i["step"])[0] for i in expected(strip_kinds(ns), [])}
+    except (KeyError, RecursionError):
+        return True
+    return stages == set(range(len(stages)))
+
+
+def replica_status(ns):
+    """component template name -> set of the answers (replicated?) over its instances, by the independent evaluation"""
+    status = {}
+    idx_to_name = {t["idx"]: t["name"] for t in ns["templates"] if not t["wf"]}
+    for i in expected(strip_kinds(ns), []):
+        status.setdefault(idx_to_name[i["tidx"]], set()).add(bool(i["replica"]))
+    return status
+
+
+def decorate_replica(rng, ns):
+    """use `%(replica)s` where it is legal: in the arguments of component templates all of whose instances are
+    replicated; a template none of whose instances is replicated may instead have an ordinary parameter that
+    happens to be called replica (with a default)"""
+    try:
+        status = replica_status(ns)
+    except (KeyError, RecursionError):
+        return
+    for t in ns["templates"]:
+        if t["wf"] or t["name"] not in status:
+            continue
+        if status[t["name"]] == {True} and rng.random() < 0.7:
+            at = rng.choice(_insertion_points(t["args"], 1))
+            t["args"] = t["args"][:at] + [{"p": REPLICA}, lit(rng)] + t["args"][at:]
+        elif status[t["name"]] == {False} and rng.random() < 0.12:
+            t["params"].append({"name": REPLICA, "default": lit_default(rng), "kind": "lit"})
+            t["args"] = t["args"] + [{"p": REPLICA}, lit(rng)]
 
 
 def component_paths(t, by_name):
@@ -769,6 +888,9 @@ def gen_namespace(rng, depth):
                     entry_args.append([p["name"], [number(rng)] if rng.random() < 0.2 else [lit(rng, pad=False)]])
         ns = {"templates": list(by_name.values()), "entry": root["name"], "entryArgs": entry_args}
         prune(ns)
+        if not stages_contiguous(ns):
+            continue
+        decorate_replica(rng, ns)
         return ns
     raise RuntimeError("generator could not build a namespace")
 
@@ -847,7 +969,7 @@ def mutate(rng, ns, kind=None):
     """-> (mutated namespace, fault) or None.  fault = {kind, loc (truncated location that must be listed, or None
     when the offending fields are those found by the independent evaluation)}"""
     r = _mutate(rng, ns, kind)
-    if r is not None and r[1]["kind"] in VALUE_FAULTS:
+    if r is not None and r[1]["kind"] in VALUE_FAULTS + REPLICA_FAULTS:
         errs = []
         try:
             expected(strip_kinds(r[0]), errs)
@@ -863,7 +985,7 @@ def _mutate(rng, ns, kind=None):
     wfs = [t for t in ns["templates"] if t["wf"]]
     comps = [t for t in ns["templates"] if not t["wf"]]
     by_name = {t["name"]: t for t in ns["templates"]}
-    kinds = list(STRUCTURAL_FAULTS) + list(VALUE_FAULTS) * 2
+    kinds = list(STRUCTURAL_FAULTS) + list(VALUE_FAULTS) * 2 + list(REPLICA_FAULTS) * 2
     if ns.get("path") == "conf":
         kinds += list(CONF_ONLY_FAULTS) * 4
     kind = kind or rng.choice(kinds)
@@ -872,9 +994,46 @@ def _mutate(rng, ns, kind=None):
     if not wfs and kind not in ("unknown-parameter-in-component", "unknown-entry-template", "missing-entry-argument",
                                 "unknown-entry-argument", "dictionary-embedded-in-component-arguments",
                                 "unknown-parameter-as-environment", "unknown-user-variable",
-                                "parameter-reference-in-user-variable"):
+                                "parameter-reference-in-user-variable") + REPLICA_FAULTS:
         return None
     root = by_name[ns["entry"]]
+    if kind in REPLICA_FAULTS:
+        try:
+            status = replica_status(ns)
+        except (KeyError, RecursionError):
+            return None
+        uses = [c for c in comps if any(t.get("p") == REPLICA for t in c["args"])
+                and not any(p["name"] == REPLICA for p in c["params"])]
+        if kind == "replica-reference-in-a-component-that-is-not-replicated":
+            cands = [c for c in comps if False in status.get(c["name"], ()) and c not in uses
+                     and not any(p["name"] == REPLICA for p in c["params"])]
+            if not cands:
+                return None
+            c = rng.choice(cands)
+            at = rng.choice(_insertion_points(c["args"], 0))
+            c["args"] = c["args"][:at] + [{"p": REPLICA}, lit(rng)] + c["args"][at:]
+        elif kind == "replicated-component-declares-a-parameter-called-replica":
+            cands = [c for c in comps if True in status.get(c["name"], ())
+                     and not any(p["name"] == REPLICA for p in c["params"])]
+            if not cands:
+                return None
+            c = rng.choice(cands)
+            c["params"].append({"name": REPLICA, "default": lit_default(rng), "kind": "lit"})
+            if rng.random() < 0.5 and c not in uses:
+                c["args"] = c["args"] + [{"p": REPLICA}, lit(rng)]
+        elif kind == "replication-switched-off-upstream-of-a-replica-reference":
+            cands = [c for c in comps if c.get("replicate") not in (None, 0)]
+            if not cands or not uses:
+                return None
+            c = rng.choice(cands)
+            c["replicate"] = rng.choice([None, 0])
+        else:
+            cands = [c for c in comps if not c.get("aggregate") and c.get("replicate") in (None, 0)
+                     and any(p.get("kind") in ("ref", "pref") for p in c["params"])]
+            if not cands or not uses:
+                return None
+            rng.choice(cands)["aggregate"] = True
+        return ns, {"kind": kind, "loc": None}
     if kind == "unknown-user-variable":
         ns.setdefault("userVars", []).append(["nosuch", [{"l": "x"}]])
         ns.setdefault("varFiles", [])
@@ -887,7 +1046,11 @@ def _mutate(rng, ns, kind=None):
         if len(cands) < 1:
             return None
         n = rng.choice(cands)
-        other = rng.choice([p["name"] for p in root["params"]])
+        # (not `replica`: the assumptions keep %(replica)s inside command.arguments)
+        others = [p["name"] for p in root["params"] if p["name"] != REPLICA]
+        if not others:
+            return None
+        other = rng.choice(others)
         ns["userVars"] = [a for a in ns.get("userVars", []) if a[0] != n] + [[n, [{"l": "u-"}, {"p": other}]]]
         files = ns.setdefault("varFiles", [])
         for f in files:
@@ -1061,7 +1224,7 @@ def otoks_text(toks):
         if "l" in t:
             out.append(t["l"])
         else:
-            out.append("stage0." + t["d"] + ("/" + "/".join(t["f"]) if t["f"] else "") + ":" + t["m"])
+            out.append("stage%d." % t["st"] + t["d"] + ("/" + "/".join(t["f"]) if t["f"] else "") + ":" + t["m"])
     return out
 
 
@@ -1076,7 +1239,7 @@ def model_view(m):
     comps = []
     for c in m["ok"]:
         env = c.get("env") or {"k": "unset"}
-        comps.append([c["name"], "".join(otoks_text(c["args"])), sorted(set(otoks_text(c["refs"]))),
+        comps.append([c["stage"], c["name"], "".join(otoks_text(c["args"])), sorted(set(otoks_text(c["refs"]))),
                       {"unset": None, "none": "none"}.get(env["k"], env.get("d"))])
     return {"components": sorted(comps, key=canon)}
 
@@ -1086,7 +1249,8 @@ def impl_view(out):
         return {"exception": out["exception"]}
     if "invalid" in out:
         return {"invalid": sorted(set(tuple(map(str, trunc_loc(l))) for l in out["invalid"]))}
-    return {"components": sorted(([c["name"], c["args"], c["refs"], c.get("env")] for c in out["components"]), key=canon)}
+    return {"components": sorted(([c["stage"], c["name"], c["args"], c["refs"], c.get("env")]
+                                  for c in out["components"]), key=canon)}
 
 
 def classify_name_collision(what, case, detail):
@@ -1170,7 +1334,56 @@ def corpus():
           "entry": "main", "entryArgs": [["explicit", [{"l": "from-entrypoint"}]]],
           "userVars": [["explicit", [{"l": "from-user"}]], ["defaulted", [{"v": 2.5, "raw": True}]]],
           "varFiles": [["explicit"], ["defaulted"]], "path": "conf"}
+    # replication: the same locations (entry-instance/first, second, third) with other roles in consecutive namespaces
+    hello = [{"l": "hello"}]
+    msg = [{"p": "message"}]
+    tmpl = {"gen": dict(_t("gen", False, 0, [], args=hello), replicate=2),
+            "source": _t("source", False, 0, [], args=hello),
+            "collect": dict(_t("collect", False, 1, [("message", None)], args=msg), aggregate=True),
+            "plain": _t("plain", False, 1, [("message", None)], args=msg),
+            "plain-replica": _t("plain-replica", False, 2, [("message", None)], args=msg + [{"l": " "}, {"p": REPLICA}])}
+
+    def chain(*steps):
+        """steps: (step name, template, producer step or None)"""
+        used = []
+        for _n, tn, _p in steps:
+            if tn not in used:
+                used.append(tn)
+        ts = []
+        for k, tn in enumerate(used):
+            ts.append(dict(copy.deepcopy(tmpl[tn]), idx=k))
+        main = _t("main", True, 0, [], steps=[[n, tn] for n, tn, _p in steps],
+                  execute=[{"target": n, "args": [["message", [{"r": [pr], "m": "output"}]]] if pr else []}
+                           for n, _tn, pr in steps])
+        return {"templates": ts + [main], "entry": "main", "entryArgs": []}
+    # two spellings of one component name in different workflows (DSL converted from FlowIR spells every stage)
+    produce = _t("produce", False, 0, [("marker", None)], args=[{"p": "marker"}])
+    consume = _t("consume", False, 1, [("message", None)], args=[{"l": "cat "}, {"p": "message"}])
+    spell = {"templates": [produce, consume,
+                           _t("main", True, 0, [], steps=[["generate", "produce"], ["legacy", "legacy-wf"],
+                                                          ["report", "consume"], ["report-legacy", "consume"]],
+                              execute=[{"target": "generate", "args": [["marker", [{"l": "by-main"}]]]},
+                                       {"target": "legacy", "args": []},
+                                       {"target": "report", "args": [["message", [{"r": ["generate"], "m": "output"}]]]},
+                                       {"target": "report-legacy",
+                                        "args": [["message", [{"r": ["legacy", "stage0.generate"], "m": "output"}]]]}]),
+                           _t("legacy-wf", True, 1, [], steps=[["stage0.generate", "produce"], ["stage1.summarise", "consume"]],
+                              execute=[{"target": "stage0.generate", "args": [["marker", [{"l": "by-legacy"}]]]},
+                                       {"target": "stage1.summarise",
+                                        "args": [["message", [{"r": ["stage0.generate"], "m": "output"}]]]}])],
+             "entry": "main", "entryArgs": []}
     return [
+        ("valid", "corpus:replicate-then-aggregate", chain(("first", "gen", None), ("second", "collect", "first")), None),
+        ("valid", "corpus:replica-reference-two-steps-below-replicate",
+         chain(("first", "gen", None), ("second", "plain", "first"), ("third", "plain-replica", "second")), None),
+        ("valid", "corpus:consumer-of-replicate", chain(("first", "gen", None), ("second", "plain", "first")), None),
+        ("invalid", "corpus:replica-reference-without-replicate",
+         chain(("first", "source", None), ("second", "plain", "first"), ("third", "plain-replica", "second")),
+         {"kind": "replica-reference-in-a-component-that-is-not-replicated", "loc": None}),
+        ("invalid", "corpus:replica-reference-below-aggregate",
+         chain(("first", "gen", None), ("second", "collect", "first"), ("third", "plain-replica", "second")),
+         {"kind": "aggregation-inserted-upstream-of-a-replica-reference", "loc": None}),
+        ("valid", "corpus:generate+nested-stage0.generate", spell, None),
         ("valid", "corpus:dictionary-forwarded-verbatim", envcase([{"l": "also plain"}]), None),
         ("invalid", "corpus:dictionary-embedded-in-a-string", envcase([{"l": "settings="}, {"p": "env"}]),
          {"kind": "dictionary-embedded-in-execute-argument", "loc": ["workflows", 0, 1]}),
@@ -1218,6 +1431,18 @@ def features(ns):
         tags.append("number-or-boolean-value")
     if any(t.get("env") for t in ns["templates"] if not t["wf"]):
         tags.append("environment-from-parameter")
+    comps = [t for t in ns["templates"] if not t["wf"]]
+    if any(t.get("replicate") not in (None, 0) for t in comps):
+        tags.append("replicate")
+    if any(t.get("replicate") == 0 for t in comps):
+        tags.append("replicate:0")
+    if any(t.get("aggregate") for t in comps):
+        tags.append("aggregate")
+    if any(tok.get("p") == REPLICA for t in comps for tok in t["args"]):
+        tags.append("replica-parameter-declared" if any(p["name"] == REPLICA for t in comps for p in t["params"])
+                    else "replica-reference")
+    if any(re.match(r"stage[0-9]+\.", s_) for t in ns["templates"] if t["wf"] for s_, _tn in t["steps"]):
+        tags.append("stage-prefix-in-step-name")
     if ns.get("path") == "conf":
         tags.append("files:%d" % len(ns.get("varFiles", [])))
         root = by_name.get(ns["entry"])
@@ -1238,15 +1463,194 @@ def features(ns):
     return sorted(set(tags)), d
 
 
-def check_cases(ctx, cases):
-    """cases: list of (stream, label, ns, fault)"""
+def run_impl(ns):
+    doc = render_doc(ns)
+    return doc, (impl(doc) if ns.get("path", "direct") == "direct" else impl_conf(doc, variable_files(ns)))
+
+
+def uses_process_state(ns):
+    """the case exercises code with process-lifetime candidates for shared state: replication, renamed components"""
+    comps = [t for t in ns["templates"] if not t["wf"]]
+    return any(t.get("replicate") is not None or t.get("aggregate") for t in comps) or \
+        any(tok.get("p") == REPLICA for t in comps for tok in t["args"])
+
+
+# ----------------------------------------------------------------------------------------
+# the answer must depend on the namespace alone: histories
+# ----------------------------------------------------------------------------------------
+
+_EXPLAINED = {}
+HISTORY = []  # the namespaces this process has compiled so far, in order
+_ISOLATED_BUDGET = [4]
+
+
+def _zygote_main():
+    """child interpreter: for every sequence of namespaces on stdin, the answer for its last element when the
+    sequence is compiled in a process that has compiled nothing else (fork of this pristine interpreter)"""
+    import experiment.model.frontends.dsl  # noqa: imported before forking
+    import experiment.model.conf  # noqa
+    seqs = json.load(sys.stdin)
+    answers = []
+    for seq in seqs:
+        r, w = os.pipe()
+        pid = os.fork()
+        if pid == 0:
+            try:
+                os.close(r)
+                out = None
+                for ns in seq:
+                    out = run_impl(ns)[1]
+                os.write(w, json.dumps(out, default=str).encode())
+            finally:
+                os._exit(0)
+        os.close(w)
+        chunks = []
+        while True:
+            b = os.read(r, 65536)
+            if not b:
+                break
+            chunks.append(b)
+        os.close(r)
+        os.waitpid(pid, 0)
+        try:
+            answers.append(json.loads(b"".join(chunks).decode()))
+        except ValueError:
+            answers.append({"exception": "isolated-run-died"})
+    sys.stdout.write("\n@@ANSWERS@@" + json.dumps(answers))
+
+
+def isolated(seqs, timeout=240):
+    """answers for the last namespace of each sequence, each sequence in a process of its own"""
+    code = "import sys, json; sys.path[:0] = json.loads(sys.argv[1]); import harness.c06 as H; H._zygote_main()"
+    try:
+        r = subprocess.run([sys.executable, "-W", "ignore", "-c", code, json.dumps([p for p in sys.path if p])],
+                           input=json.dumps(seqs), stdout=subprocess.PIPE, stderr=subprocess.DEVNULL, text=True,
+                           timeout=timeout)
+        return json.loads(r.stdout.rsplit("@@ANSWERS@@", 1)[1])
+    except Exception:  # noqa
+        return None
+
+
+def stable(out):
+    """an answer without what legitimately differs between two runs (messages quote scratch directories)"""
+    out = json.loads(json.dumps(out, default=str))
+    out.pop("message", None)
+    out.pop("messages", None)
+    return out
+
+
+def component_locations(ns):
+    try:
+        return {i["path"] for i in expected(ns, [])}
+    except (KeyError, RecursionError):
+        return set()
+
+
+def explain_by_history(ns, out, before):
+    """-> None when the implementation gives the same answer `out` for `ns` in a process of its own; otherwise
+    {"alone": that answer, "history": a (short) list of earlier namespaces after which the answer is `out`}"""
+    if _ISOLATED_BUDGET[0] <= 0:
+        return None
+    _ISOLATED_BUDGET[0] -= 1
+    want = canon(stable(out))
+    alone = isolated([[ns]])
+    if alone is None or canon(stable(alone[0])) == want:
+        return None
+    here = component_locations(ns)
+    colliding = [h for h in before if component_locations(h) & here] or list(before)
+    recent = colliding[-150:]
+    singles = isolated([[h, ns] for h in reversed(recent)]) or []
+    for h, a in zip(reversed(recent), singles):
+        if canon(stable(a)) == want:
+            return {"alone": alone[0], "history": [h]}
+    for hist in (colliding[-30:], colliding[-300:], list(before)[-600:]):
+        a = isolated([hist + [ns]])
+        if a is not None and canon(stable(a[0])) == want:
+            # drop what is not needed, from the front
+            while len(hist) > 1:
+                half = hist[len(hist) // 2:]
+                a = isolated([half + [ns]])
+                if a is not None and canon(stable(a[0])) == want:
+                    hist = half
+                else:
+                    break
+            return {"alone": alone[0], "history": hist}
+    return {"alone": alone[0], "history": [], "note": "not reproduced with the earlier namespaces of this run"}
+
+
+HISTORY_SLUG = "result-depends-on-earlier-cases"
+
+
+def report(ctx, slug, case, detail, ns, out, before):
+    """an oracle failure of a run with a history: is the wrong answer a function of the namespace, or of what this
+    process compiled before?  The first failure of each kind is re-computed in a process of its own; when the answer
+    differs there, the failure (and every later one of that kind) is reported as HISTORY_SLUG, the first one with the
+    earlier namespaces that reproduce it"""
+    if slug not in _EXPLAINED:
+        ex = explain_by_history(ns, out, HISTORY[:before])
+        if ex is None and _ISOLATED_BUDGET[0] <= 0 and _EXPLAINED.get(HISTORY_SLUG):
+            ex = {}  # cannot be examined any more; earlier failures of this run were due to the history
+        _EXPLAINED[slug] = ex is not None
+        if ex:
+            _EXPLAINED[HISTORY_SLUG] = True
+            detail["answer_in_a_process_of_its_own"] = ex["alone"]
+            if ex.get("note"):
+                detail["note"] = ex["note"]
+            case = dict(case, history=ex["history"])
+    if _EXPLAINED.get(slug):
+        detail["kind_of_failure"] = slug
+        slug = HISTORY_SLUG
+    ctx.fail(slug, case, detail)
+
+
+def judge(ns, stream, fault, out):
+    """the property oracle on one answer -> None | (slug, detail)"""
+    if stream == "valid":
+        try:
+            return oracle_valid(ns, out)
+        except (KeyError, RecursionError) as exc:
+            return ("harness-generated-an-ill-formed-valid-case", repr(exc))
+    return oracle_invalid(ns, fault, out)
+
+
+def second_pass(ctx, again):
+    """family (a): a sample of the cases is compiled AGAIN, in another order, after everything else: the answers
+    must be the same and must still satisfy the property"""
+    rng = ctx.rng
+    pool = [a for a in again if uses_process_state(a[0][2])]
+    rest = [a for a in again if not uses_process_state(a[0][2])]
+    n = 260 if ctx.tier == "quick" else 1500
+    sample = rng.sample(pool, min(len(pool), n)) + rng.sample(rest, min(len(rest), n // 4))
+    rng.shuffle(sample)
+    for (stream, label, ns, fault), first in sample:
+        before = len(HISTORY)
+        doc, out = run_impl(ns)
+        HISTORY.append(ns)
+        ctx.tag("second-pass")
+        case = {"stream": stream, "label": label, "ns": ns, "fault": fault, "old": {}}
+        same = canon(stable(first)) == canon(stable(out))
+        why = judge(ns, stream, fault, out)
+        if why and any(fn(why[0], case, {"why": why[1]}) for fn in CLASSIFIERS.values()):
+            continue  # a recorded defect family: reported by the first pass
+        if same and not why:
+            continue
+        slug = HISTORY_SLUG if not same else why[0]
+        detail = {"first_answer": first, "answer_now": out, "oracle": why, "document": doc}
+        report(ctx, slug, case, detail, ns, out, before)
+
+
+def check_cases(ctx, cases, again=None):
+    """cases: list of (stream, label, ns, fault); `again` collects (case, first answer) for the second pass"""
     reqs = [model_request(strip_kinds(ns)) for _s, _l, ns, _f in cases]
     mouts = ctx.model(reqs)
     for idx, (stream, label, ns, fault) in enumerate(cases):
         ns = strip_kinds(ns)
-        doc = render_doc(ns)
         path = ns.get("path", "direct")
-        out = impl(doc) if path == "direct" else impl_conf(doc, variable_files(ns))
+        before = len(HISTORY) if again is not None else None
+        doc, out = run_impl(ns)
+        HISTORY.append(ns)
+        if again is not None:
+            again.append(((stream, label, ns, fault), out))
         tags, d = features(ns)
         tags.append("path:" + path)
         m = mouts[idx] if mouts is not None else None
@@ -1281,7 +1685,11 @@ def check_cases(ctx, cases):
         known_family = False
         if why:
             detail = {"why": why[1], "impl": out, "document": doc}
-            ctx.fail(why[0], case, detail)
+            if before is None or any(fn(why[0], case, detail) for fn in CLASSIFIERS.values()):
+                ctx.fail(why[0], case, detail)
+            else:
+                detail["oracle"] = list(why)
+                report(ctx, why[0], case, detail, ns, out, before)
             # the model has the repaired behaviour: on a case of a recorded defect family the code is expected to
             # differ from it (the oracle failure above is what gets reported / matched against known findings)
             known_family = any(fn(why[0], case, detail) for fn in CLASSIFIERS.values())
@@ -1293,9 +1701,17 @@ def check_cases(ctx, cases):
         if m is not None and not known_family:
             ctx.compare("namespace_to_flowir == Dsl.flattenOp (components, arguments, references | error locations)",
                         case, model_view(m), impl_view(out))
+            if m.get("replicas"):
+                # model-internal: the answers of can_template_replicate with the memo dictionaries threaded through the
+                # components (as the code calls it) are those of the memo-free definition that flattenOp uses
+                ctx.compare("Dsl.replicasM (memo threaded in call order) == Dsl.isReplica", case,
+                            m["replicas"]["memo"], m["replicas"]["plain"])
             if stream == "valid" and "ok" in m:
                 # model-internal: operational result agrees with the denotational spec and with the oracle's edges
                 exp = expected(ns)
+                ctx.compare("Dsl.isReplica == oracle replication", case,
+                            sorted((c["loc"], bool(c["replica"])) for c in m["ok"]),
+                            sorted((list(e["path"]), bool(e["replica"])) for e in exp))
                 want = sorted((list(e["path"]), [list(p) for p in sorted(set(filter(None, e["producers"])))]) for e in exp)
                 got = sorted((c["loc"], sorted(c["producers"])) for c in m["ok"])
                 want = [list(x) for x in want]
@@ -1322,12 +1738,25 @@ def run(ctx):
                 "variable files whose global sections override entry parameters that the entrypoint passes and "
                 "parameters that only have a default (text / number / boolean values), plus mutations of those "
                 "(+ unknown user variable, parameter reference inside a user variable, list-valued argument).  "
+                "Step names also carry explicit `stage<N>.` prefixes (stage0.foo, stage00.foo-I, stage1.foo ...: other "
+                "spellings of a name, the same name in another stage).  Component templates may ask for replication "
+                "(workflowAttributes.replicate 1-3, or 0) or aggregate; `%(replica)s` is used in command.arguments "
+                "where every instance is replicated, an ordinary parameter called replica where none is; 4 more fault "
+                "kinds (replica reference in a component that is not replicated, replicated component declaring a "
+                "parameter called replica, replication switched off / aggregation inserted upstream of a replica "
+                "reference).  Histories: all cases run in one process (locations entry-instance/<step> collide across "
+                "cases with other roles); a sample (every case with replicate / aggregate / replica first) is compiled "
+                "AGAIN after all others in a shuffled order: same answer and the property oracle again "
+                "(result-depends-on-earlier-cases; a failing answer is re-computed in a process of its own and the "
+                "earlier namespaces that change it are attached to the replay).  "
                 "Non-trivial = nesting depth >= 2 with a forwarded parameter, or an invalid-stream case, or a conf-path "
                 "case with at least one user variable; distinct by canonical JSON.")
     ctx.assumptions = [
         "literal chunks never contain % < > \" : (no legacy data references) and are never empty",
-        "no `stage<N>.` prefixes in step names, no variables / replicate / key outputs; an environment only through "
-        "command.environment: \"%(param)s\"",
+        "no variables / key outputs; an environment only through command.environment: \"%(param)s\"; `%(replica)s` "
+        "only inside command.arguments (never in execute arguments or defaults); replicate is a number (no parameter "
+        "reference), never together with aggregate; a parameter value holds at most one output reference; the "
+        "stages named by the component steps of a namespace are 0..n-1 without gaps",
         "template names are unique; defaults are literals, numbers or dictionaries (no null values: the code renders "
         "null as the text None and treats a null default as no default); a workflow lists at most one execute entry per step",
         "a component never consists of a single parameter reference as its whole command.arguments",
@@ -1362,7 +1791,8 @@ def run(ctx):
                     cases.append(("invalid", label + r[1]["kind"], r[0], r[1]))
                     break
 
-    invalid_stream(valid, 600 if quick else 4500, list(STRUCTURAL_FAULTS) + list(VALUE_FAULTS) * 2, "mut:")
+    invalid_stream(valid, 680 if quick else 5000,
+                   list(STRUCTURAL_FAULTS) + list(VALUE_FAULTS) * 2 + list(REPLICA_FAULTS) * 2, "mut:")
     # second driver path: package + user variable files through the configuration factory
     n_conf = 260 if quick else 2000
     conf_valid = []
@@ -1371,17 +1801,23 @@ def run(ctx):
         conf_valid.append(ns)
         cases.append(("valid", "conf:%d-files" % len(ns["varFiles"]), ns, None))
     invalid_stream(conf_valid, 160 if quick else 1200,
-                   list(CONF_ONLY_FAULTS) * 3 + list(VALUE_FAULTS) * 2 + list(STRUCTURAL_FAULTS), "conf-mut:")
+                   list(CONF_ONLY_FAULTS) * 3 + list(VALUE_FAULTS) * 2 + list(STRUCTURAL_FAULTS) + list(REPLICA_FAULTS),
+                   "conf-mut:")
     # roman numerals pin
     rm = ctx.model([{"op": "roman", "n": n} for n in range(1, 60)])
     if rm is not None:
         import experiment.model.frontends.dsl as D
         ctx.compare("number_to_roman_like_numeral == Dsl.roman on 1..59", {"n": "1..59"},
                     [x["roman"] for x in rm], [D.number_to_roman_like_numeral(n) for n in range(1, 60)])
-    check_cases(ctx, cases)
+    again = []
+    check_cases(ctx, cases, again)
+    second_pass(ctx, again)
 
 
 def replay(ctx, doc):
     ctx.classifiers = CLASSIFIERS
     case = doc.get("input") or doc["no_longer_checks"][-1]["input"]
+    for h in case.get("history") or []:
+        run_impl(h)  # the namespaces compiled earlier in the same process
+        HISTORY.append(h)
     check_cases(ctx, [(case["stream"], case.get("label", "replay"), case["ns"], case.get("fault"))])
